@@ -8,7 +8,7 @@ LEVEL = "model_checking"
 MANIFEST = dict(
     design='DESIGN.md §4 C13, §3 (TimeLabels)',
     technique='TLA+ label rules (TimeLabels.tla) enumerated by TLC: a token machine generates every label/instruction/block sequence within bounds with the time of each instruction (replayed into the real compiler), and every stored time/jump sequence (replayed into the real decompiler, whose printed tree TLC judges with the same rules)',
-    text='Compile direction: TLC explores the machine that appends one token (absolute/relative label incl. constant-expression, negative and wrapping deltas, instruction, `{`, `loop {`, `if (..) {`, `}`) at a time, checks on every sequence that the tree-recursive label rules agree with a brace-blind left-to-right fold (times commute with nesting/flattening), and writes every complete program with the expected time per instruction; the harness compiles each with the real pipeline (TestLanguage lowering, and ANM th12 / STD th08 / MSG th06 through the full API with built-in signatures) and the RawInstr.time sequences must be equal. Decompile direction: TLC enumerates all stored time sequences of length <=5 over {-5,-1,0,3,10} plus one or two jumps (position, target, time argument); the harness builds exactly those instruction lists, runs the real Raiser (and the real STD th08 decompiler incl. loop recovery), prints, re-parses and recompiles; TLC evaluates on each exported tree that the documented meaning of the printed labels reproduces the stored times and the stored jump time arguments (StoredTimes!Verdict), Python only compares recompiled instructions with the stored ones for equality.',
+    text='Compile direction: TLC explores the machine that appends one token (absolute/relative label incl. constant-expression, negative and wrapping deltas, instruction, `{`, `loop {`, `if (..) {`, `}`) at a time, checks on every sequence that the tree-recursive label rules agree with a brace-blind left-to-right fold (times commute with nesting/flattening), and writes every complete program with the expected time per instruction; the harness compiles each with the real pipeline (TestLanguage lowering, and ANM th12 / STD th08 / MSG th06 through the full API with built-in signatures), also runs the real time pass on the block tree before desugaring, and the time sequences must be equal. Decompile direction: TLC enumerates all stored time sequences of length <=5 over {-5,-1,0,3,10} plus one or two jumps (position, target, time argument); the harness builds exactly those instruction lists, runs the real Raiser (and the real STD th08 decompiler incl. loop recovery), prints, re-parses and recompiles; TLC evaluates on each exported tree that the documented meaning of the printed labels reproduces the stored times and the stored jump time arguments (StoredTimes!Verdict), Python only compares recompiled instructions with the stored ones for equality.',
     note='Trusted: TLC, CommunityModules Json, the structural exporter/renderer, the instruction-list builder of the harness (sizes/offsets of the test language and of STD th07-09). break/continue and if/else produced by the decompiler are not read by StoredTimes.tla (counted as unsupported). Times are the in-memory RawInstr.time (file field widths are C03).',
 )
 
@@ -63,7 +63,7 @@ def run_chunks(cmd, rows, wd, tag, formats, chunk=1500, par=6):
 # ------------------------------------------------------------------------------------------- compile
 def gen_label_seqs(tier, wd):
     out = os.path.join(wd, "cases.ndjson")
-    r = lib.tlc("Gen_LabelSeqs", cfg="Gen_LabelSeqs_%s.cfg" % tier, env={"OUT": out}, workers=6, timeout=3000, name="c13_gen_labels")
+    r = lib.tlc("Gen_LabelSeqs", cfg="Gen_LabelSeqs_%s.cfg" % tier, env={"OUT": out}, workers=4, timeout=3000, name="c13_gen_labels")
     if not r.ok:
         raise lib.ToolError("Gen_LabelSeqs (%s): in-model invariant failed — the specification itself is inconsistent\n%s" % (tier, r.out[-3000:]))
     return r, lib.read_ndjson(out)
